@@ -19,6 +19,10 @@ CHECKS = {
          "For each generated geodesic/rhumb line all 2^7 (2^5 for rhumb) output-bit subsets x LONG_UNROLL and all 2^8 capability subsets are executed; requested outputs must equal the ALL-mask values to round-off and everything else must keep its sentinel bit pattern. Line self-consistency (arc vs distance addressing, third point) uses the documented accuracy.",
          "The values themselves are tied to the definitions by C01-C03/C09; here the oracle is the library's own ALL-mask result, which is what the property states. Geodesics are sampled, masks are exhaustive.",
          "DESIGN.md section 3/C12"),
+ "C08": ("rapidcheck (stateful / model-based)", "model-based property testing over generated edit histories: in-harness vertex-list model with an independent area assembly (per-edge area and unrolled longitude from the geodesic-ODE reference, winding number instead of crossing parity); bit-identical state checks for tentative queries and Clear; metamorphic relations on vertex lists",
+         "Histories of Clear/AddPoint/AddEdge/TestPoint/TestEdge/Compute/CurrentPoint are generated as values (so the whole history shrinks), run against PolygonArea, PolygonAreaExact and PolygonAreaRhumb (polygon and polyline), and compared with the model after every step; separate metamorphic sub-check for start vertex, orientation, flags, longitude shifts and diagonal cuts.",
+         "Precondition of the property (unique shortest edges) is enforced by the model, which refuses nearly antipodal / pole-crossing edges (counted, not judged). Rhumb edges use the library's per-edge Rhumb results (validated by C09); only the assembly is independent there. Negative edge lengths are not generated (undocumented input).",
+         "DESIGN.md section 3/C08"),
  "C01": ("rapidcheck", "property-based testing against an independent long-double geodesic-ODE reference; differential across 8 solver/line configurations; metamorphic reversal",
          "Generated-input exploration: every generated direct problem is compared with a reference that integrates the geodesic equation itself (no series, no auxiliary sphere), to 2x the documented accuracy for the flattening. Exploration is the right level: the property quantifies over a continuum of inputs and an executable oracle exists.",
          "Trusts: the reference ODE integrator (self-checked per case by step halving, constraint projection), x87 long double, the tolerance formulas of DESIGN section 2 (2x documented accuracy, scaled by length in quarter circuits). Errors below the documented accuracy are not violations.",
